@@ -3,7 +3,7 @@
 import json, os
 V = os.path.dirname(os.path.dirname(os.path.abspath(__file__)))
 CHECKS = {
- "C01": ("seqx", "4 C01", "explicit-state BFS over request/clock/provider/fault histories (store calls, single Redis commands, token endpoint, key lookups; honest answer shapes; absolute/idle time-outs; two replicas) on the real handler and stores (memory, Redis) with an abstract-session oracle, plus start-up pairs of filters on different stores at server level",
+ "C01": ("seqx", "4 C01", "explicit-state BFS over request/clock/provider/fault histories (store calls, single Redis commands, token endpoint, key lookups; honest answer shapes; absolute/idle time-outs; two replicas) on the real handler and stores (memory, Redis) with an abstract-session oracle, plus exhaustive pre-emption-bounded schedule exploration of two overlapping checks of one expired session, plus start-up pairs of filters on different stores at server level",
          "Every OK verdict in every explored history (quick: depth 5, every env call of every check failing before/after/crash; thorough: depth 6 with single faults plus depth 4 with all pairs of faults) is justified by the ghost store + provider ledger and a fault-free check.",
          "Handler-level (Process on a per-check handler, as Check builds it); time-outs only in the expiry specs; alphabet-bounded; small searches run first."),
  "C02": ("seqx", "4 C02", "explicit-state BFS over login/refresh histories with a 42-element adversarial ID-token grammar and 5 honest answer shapes; exhaustive interleavings of two checks under an adversarial refresh; server-level pairs of providers differing only in port / discovery selector; independent stdlib JWS verifier as oracle",
@@ -22,7 +22,7 @@ CHECKS = {
          "All chain lists of length 0..3 (filter sequences <=2 quick, <=3 plus length-4 lists thorough) x allow_unmatched x 6 header maps: status code, answering filter and number of OIDC filters reached equal the reference (first matching chain, conjunction with short-circuit, default deny).",
          "Alphabet-bounded; lower-case request header names."),
  "C09": ("schedx+seqx", "4 C09", "exhaustive schedule exploration (pre-emption bounded) of logout vs concurrent checks on the real handler and stores under a cooperative scheduler, plus a sequential BFS for the logout answer",
-         "All interleavings at store-call/token-call granularity (bound 2 quick; unbounded 2 threads + bound 3 for 3 threads thorough) of a logout with checks on a fresh/expired/mid-login session, memory and Redis: no OK produced after the logout answer and no OK on the follow-up request, except the listed known findings; the logout answer is the end-session redirect with an expired cookie, or an error when the removal failed.",
+         "All interleavings at store-call/token-call granularity (bound 2 quick; unbounded 2 threads + bound 3 for 3 threads thorough) of a logout with checks on a fresh/expired/mid-login session, memory and Redis (one scenario at lock / Redis-command granularity judging checks that start after the logout answer): no OK produced after the logout answer and no OK on the follow-up request, except the listed known findings; the logout answer is the end-session redirect with an expired cookie, or an error when the removal failed.",
          "Atomic blocks between environment calls; known findings for the refresh/callback write that re-creates a removed session."),
  "C10": ("seqx", "4 C10", "explicit-state BFS over store operation/clock/sweep histories with a candidate-set (relational) reference of created/last-use times; handler-level BFS with a rotating provider; start-up pairs on one Redis server; real-time and binary-level replays",
          "For 6 (absolute, idle) pairs and both stores, every history up to depth 8 (11 thorough, two ids at depth 8) without any manual sweep: no read returns data past creation+absolute or last-use+idle, none drops a session more than one second inside both limits, activity never moves the absolute limit.",
